@@ -190,7 +190,7 @@ LEVEL_TEXT = {
         "Tie: hostile worlds predicted by the model in-process; process survival, liveness, bystander integrity, tool exits, descriptor and memory limits observed on the real binary.",
  "C19": "Theorems over the Lean model of the configuration wiring (`effective`): a command-line flag wins over every file and variable; a value given in exactly one channel is the effective one; among files --config / PS3NETSRV_CONFIG_FILE > ./config.ini > user directory; a malformed value in the winning channel, or in the environment at all, stops start-up (never a silent fallback); one failing setting stops start-up. "
         "Tie: the real binary's observable behaviour for all 9 settings x 6 channels against the model.",
- "C12": "Logic proved, runtime observed. Theorems on the multi-connection model: with writing off, for any number of connections and ANY interleaving of their requests, each connection's response stream equals its stream when served alone (induction over the schedule; a step of one connection never touches another's state and leaves the world fixed), hence independence of what others send; every connection starts from the empty state; the shared buffer pool never hands one buffer to two connections under any get/put interleaving. "
+ "C12": "Logic proved, runtime observed. Theorems on the multi-connection model: with writing off, for any number of connections and ANY interleaving of their requests, each connection's response stream equals its stream when served alone (induction over the schedule; a step of one connection never touches another's state and leaves the world fixed), hence independence of what others send; the same on a server with writing ENABLED for every schedule of non-mutating requests (open/stat/list/read/dir-size), from the general frame theorem noninterference_of_frame; every connection starts from the empty state; the shared buffer pool never hands one buffer to two connections under any get/put interleaving. "
         "Tie: parallel sessions against the sequential prediction, race detector in thorough.",
  "C13": "Logic proved, runtime observed. Theorems: State.Close releases all three slots whatever they hold; every request keeps at most one handle per slot and a replaced handle is released (slot bookkeeping of OPEN_DIR/OPEN_FILE/CREATE/CLOSEFILE); the judgement predicate accepts the fault-free run, rejects altered bytes and hangs, and a closed connection admits nothing after it; enumeration always terminates (structural recursion over the remaining names). "
         "Tie: single-fault enumeration over every filesystem operation of 6 scenarios judged by that predicate; ledger after every session and after abrupt closes.",
